@@ -752,12 +752,15 @@ async fn run_task(w: &mut World, variant: u64, out: &Segs, err: &Segs, cap: u64,
         1 => json!({"tool": "python", "args": {"command": command}}),
         2 => json!({"tool": "bash", "args": {"command": 17}}),
         3 => json!({"tool": "bash", "args": {"command": command, "cwd": "/", "artifact_max_bytes": cap, "max_bytes": plimit}}),
-        _ => json!({"tool": "bash", "args": {"command": command, "artifact_max_bytes": cap, "max_bytes": plimit}}),
+        _ => json!({"tool": "bash", "args": {"command": command, "cwd": ".", "artifact_max_bytes": cap, "max_bytes": plimit}}),
     };
     let (st, created) = call_json(&w.app, req("POST", "/tasks", Some(body))).await;
     let id = created.get("task_id").and_then(|x| x.as_str()).unwrap_or("").to_string();
     if id.is_empty() {
-        o.fail("task_spawn_rejected", format!("POST /tasks -> {st} {created}"));
+        // the router refuses tools other than bash/shell outright (no stream is ever created)
+        if !(variant == 1 && st == 400) {
+            o.fail("task_spawn_rejected", format!("POST /tasks -> {st} {created}"));
+        }
         return (o, vec![]);
     }
     if let Some(ms) = cancel_after_ms {
@@ -787,7 +790,7 @@ async fn run_task(w: &mut World, variant: u64, out: &Segs, err: &Segs, cap: u64,
             o.fail("seq_not_consecutive", format!("frame {i} has seq {}", u(e, "seq")));
         }
     }
-    lifecycle_oracle(&mut o, &codes, variant == 1 || variant == 2);
+    lifecycle_oracle(&mut o, &codes, variant == 2);
     if variant != 0 {
         if codes.last() != Some(&24) {
             o.fail("failure_not_reported_failed", format!("{codes:?}"));
@@ -864,7 +867,7 @@ async fn run_bash(w: &mut World, out: &Segs, err: &Segs, pmax: u64, amax: u64, e
     let reg = Arc::new(rip_tools::ToolRegistry::default());
     rip_tools::register_builtin_tools(&reg, tool_cfg(&w.ws, pmax, amax));
     let h = reg.get("bash").unwrap();
-    let res = (h)(rip_tools::ToolInvocation { name: "bash".into(), args: json!({"command": format!("cat {fo}; cat {fe} >&2; exit {exit}")}), timeout_ms: None }).await;
+    let res = (h)(rip_tools::ToolInvocation { name: "bash".into(), args: json!({"command": format!("cat {fo}; cat {fe} >&2; exit {exit}"), "cwd": "."}), timeout_ms: None }).await;
     if res.exit_code as u64 != exit {
         o.fail("exit_status_wrong", format!("bash exit code {} for `exit {exit}`", res.exit_code));
     }
@@ -1184,7 +1187,7 @@ fn res_codes_case(o: Obs, codes: Vec<u64>, variant: u64) -> (Obs, Vec<(Spec, Vec
     if codes.is_empty() {
         return (o, vec![]);
     }
-    let spawnless = variant == 1 || variant == 2;
+    let spawnless = variant == 2;
     let mut enc = if spawnless { vec![0, 0, 1] } else { vec![1, 1, 0] };
     enc.extend(codes.iter().copied());
     (o, vec![(Spec::Lifecycle { codes }, enc)])
